@@ -52,6 +52,14 @@ pub fn gen_case(rng: &mut Rng, lossless_only: bool) -> (Cfg, Vec<F>) {
         let name = match i { 0 => "Data\\File0.txt".to_string(), 1 => "b.bin".to_string(), 2 => "Interface\\Glue\\TheQuickBrownFoxJumpsOverLazyDog_0189.blp".to_string() /* every letter takes part in case folding */, _ => format!("Dir{}\\Sub\\f{}.dat", i % 2, i) };
         files.push(F { name, data: content(rng, len, class), method: *rng.pick(methods), enc: rng.below(3) as u8 });
     }
+    // one case in three carries names whose extended-table byte is the largest / smallest possible (0xFF, 0x80), two of them
+    // colliding, next to ordinary names
+    if rng.chance(1, 3) {
+        let mut found = vec![]; let want = *rng.pick(&[0xFFu8, 0xFF, 0x80]); let base = rng.below(4000);
+        for k in base..base + 3000 { let n = format!("hx\\f{k}.dat"); if wow_mpq::crypto::het_hash(&n, 8).1 == want { found.push(n); if found.len() >= 2 { break; } } }
+        for (k, n) in found.into_iter().enumerate() { let at = if k == 0 { rng.below(files.len() as u64 + 1) as usize } else { files.len() }; let len = rng.range(1, 900) as usize; let class = rng.below(5);
+            files.insert(at, F { name: n, data: content(rng, len, class), method: *rng.pick(methods), enc: 0 }); }
+    }
     // one case in four carries store-raw boundary units: as single-unit files and as the middle sector of a sectored file
     if rng.chance(1, 4) {
         let m = *rng.pick(&[flags::ZLIB, flags::BZIP2, flags::LZMA, flags::SPARSE]);
@@ -155,11 +163,11 @@ pub fn run(ctx: &mut Ctx) {
                     ctx.out.stat("c01.extended_tables.loaded");
                     bet_cases(ctx, &a);
                     for f in &files {
-                        match het.find_file(&f.name) {
-                            None => ctx.out.oracle(false, "extended-table-lookup-misses-added-file", &format!("{desc} file={}", f.name)),
-                            Some(ix) => ctx.out.oracle(bet.verify_file_hash(ix, &f.name), "extended-table-name-hash-not-confirmed", &format!("{desc} file={} index={ix}", f.name)),
-                        }
+                        let cands = het.find_file_with_collision_info(&f.name).1;
+                        if cands.is_empty() { ctx.out.oracle(false, "extended-table-lookup-misses-added-file", &format!("{desc} file={}", f.name)); }
+                        else { ctx.out.oracle(cands.iter().any(|c| bet.verify_file_hash(*c, &f.name)), "extended-table-name-hash-not-confirmed", &format!("{desc} file={} candidates={cands:?}", f.name)); }
                     }
+                    het_cases(ctx, &a, &files.iter().map(|f| f.name.clone()).collect::<Vec<_>>(), cfg.attrs != 0, cfg.listfile);
                 }
                 _ => ctx.out.stat("c01.extended_tables.not_loaded"),
             }
@@ -231,7 +239,8 @@ pub fn run(ctx: &mut Ctx) {
                 match (a.het_table(), a.bet_table()) {
                     (Some(het), Some(bet)) => for f in &files {
                         let classic = a.find_file(&f.name).ok().flatten();
-                        match (het.find_file(&f.name), classic) {
+                        let cands = het.find_file_with_collision_info(&f.name).1;
+                        match (cands.iter().copied().find(|c| bet.verify_file_hash(*c, &f.name)).or(cands.first().copied()), classic) {
                             (Some(ix), Some(ci)) => {
                                 ctx.out.oracle(bet.verify_file_hash(ix, &f.name), "extended-table-name-hash-not-confirmed", &format!("{desc} file={} index={ix}", f.name));
                                 match bet.get_file_info(ix) {
@@ -314,4 +323,34 @@ pub fn bet_reader_cases(ctx: &mut Ctx, count: usize) {
             ctx.out.case(&format!("c01betrow {},{},{},{} {} {i} {nfl}", w[0], w[1], w[2], w[3], if table.is_empty() { "-".to_string() } else { hex(&table) }), &imp);
         }
     }
+}
+
+/// correspondence of the extended hash table with Model.C01Het: the slot bytes and the packed index array for the files'
+/// 64-bit name hashes (in block order: added files, then the generated special files), and the candidates / confirmed
+/// index of lookups of added and never-added names
+pub fn het_cases(ctx: &mut Ctx, a: &Archive, names: &[String], attrs: bool, listfile: bool) {
+    let (Some(het), Some(bet)) = (a.het_table(), a.bet_table()) else { return; };
+    let n = het.header.max_file_count as usize;
+    // block order: the added files, (listfile), (attributes)
+    let mut order: Vec<String> = names.to_vec();
+    if listfile { order.push("(listfile)".into()); }
+    if attrs { order.push("(attributes)".into()); }
+    if order.len() != n || n > 40 { ctx.out.stat("c01.het.order_unknown"); return; }
+    // the model needs the insertion order to be the block order: confirm with the block-entry table's own hashes
+    let full = |s: &str| wow_mpq::crypto::het_hash(s, 64).0;
+    if !order.iter().enumerate().all(|(i, s)| bet.bet_hashes.get(i) == Some(&full(s))) { ctx.out.stat("c01.het.order_differs"); return; }
+    let hs: Vec<String> = order.iter().map(|s| full(s).to_string()).collect();
+    let hs = hs.join(",");
+    ctx.out.case(&format!("c01het {hs}"), &format!("{} {}", hex(&het.hash_table), hex(&het.file_indices)));
+    let mut queries: Vec<String> = order.clone();
+    queries.extend(["never\\added.txt".to_string(), "hx\\f50.dat".into(), "HX/F471.DAT".into(), "zz".into()]);
+    for q in queries.iter().take(14) {
+        let cands = het.find_file_with_collision_info(q).1;
+        let res = cands.iter().copied().find(|c| bet.verify_file_hash(*c, q));
+        ctx.out.case(&format!("c01hetfind {hs} {}", full(q)), &format!("{} -> {}", cands.iter().map(|c| c.to_string()).collect::<Vec<_>>().join(","), res.map(|r| r.to_string()).unwrap_or("none".into())));
+        // (I) through the extended tables alone: an added name resolves to its own block, a never-added name to none
+        let want = order.iter().position(|s| s.eq_ignore_ascii_case(&q.replace('/', "\\")));
+        ctx.out.oracle(res.map(|r| r as usize) == want, "extended-lookup-resolves-wrongly", &format!("{q}: candidates {cands:?}, confirmed {res:?}, block {want:?}"));
+    }
+    ctx.out.stat("c01.het.modelled");
 }
